@@ -11,7 +11,7 @@ for d in sorted(glob.glob(os.path.join(ROOT, 'seeded', '*'))):
     sid = os.path.basename(d)
     summ = re.sub(r'\s+', ' ', str(m.get('summary', '')))[:230]
     needs = re.sub(r'\s+', ' ', str(m.get('needs', '')))[:200]
-    res = re.sub(r'\s+', ' ', str(m.get('verif_result', '?')))[:260]
+    res = re.sub(r'\s+', ' ', str(m.get('verif_result', '?')))[:520]
     rows.append('| %s | %s | %s | %s |' % (sid, summ.replace('|', '/'), needs.replace('|', '/'), res.replace('|', '/')))
 text = '''## 9. Seeded changes: which checks catch which
 
@@ -21,9 +21,13 @@ with the patch (all three facts re-confirmed here by `tools/confirm_seeded.sh`).
 the patch to /repo, runs `./check Cxx --tier quick`, and undoes it. "MISSED ... caught since" entries record
 where a first version of a check was strengthened because of the seeded change.
 
+%d changes in two rounds (round 2 = the higher numbers of each property); %d were missed by the check as it was
+when the change arrived, every one of those led to a stronger generator or oracle (and four of them to the discovery
+of genuine defects of the unchanged tree), and all %d are caught by the committed checks.
+
 | id | change | needs, to manifest | result |
 |---|---|---|---|
-''' + '\n'.join(rows) + '\n'
+''' % (len(rows), sum('MISSED' in r for r in rows), len(rows)) + '\n'.join(rows) + '\n'
 p = os.path.join(ROOT, 'DESIGN.md')
 s = open(p).read()
 i = s.find('## 9. Seeded changes: which checks catch which')
